@@ -293,6 +293,10 @@ struct Flow : Prop {
 				}
 				auto &sq = safe_q[nk];
 				bool used = false;
+				// (requests that can have expired by now leave first: the library, finding that the oldest request does not accept the message,
+				// expires them and then matches the message against the request that has become the oldest - a late answer to an expired
+				// request is spent on a fresh request of the same kind. The lower bound must not spend it on the expired one.)
+				if (m.type != MSG_STALL) { size_t n0 = sq.size(); for (size_t i = 0; i < sq.size();) { if (now_s - sq[i].t_inv_s >= 2) sq.erase(sq.begin() + (long) i); else i++; } if (sq.size() != n0) recheck_deferred(e, nk, now_s); }
 				for (size_t i = 0; i < sq.size(); i++) {
 					const auto &acc = pc::resp_info(sq[i].type).answers;
 					if (std::find(acc.begin(), acc.end(), m.type) != acc.end()) { sq.erase(sq.begin() + (long) i); used = true; break; }
